@@ -135,6 +135,16 @@ static void grad_case (long idx, vf_rng *r)
     /* a long row across which t advances by less than 1/65536 per pixel but by many colour steps in total (nearly vertical gradient vector) */
     int long_row = 0;
     if (g.kind == 0 && !degenerate && vf_chance (r, 1, 10)) { g.p2.x = g.p1.x + (pixman_fixed_t)vf_range (r, -3 * 65536, 3 * 65536); g.p2.y = g.p1.y + (vf_chance (r, 1, 2) ? 1 : -1) * frand (r, 150, 500); long_row = 1; }
+    /* a horizontal gradient on the half-pixel grid with a power-of-two length and stops at multiples of 1/length: every pixel centre has an EXACT t that
+     * is a stop position (hard steps where two stops share one, the first and the last stop, the wrap of a repeating gradient) */
+    int exact = 0, ex_a = 0, ex_L = 1;
+    if (g.kind == 0 && !degenerate && !long_row && vf_chance (r, 1, 8)) {
+        exact = 1; ex_L = 1 << (int)vf_range (r, 2, 5); ex_a = (int)vf_range (r, -3, 6);
+        g.p1.x = pixman_int_to_fixed (ex_a) + 0x8000; g.p2.x = g.p1.x + pixman_int_to_fixed (ex_L); g.p2.y = g.p1.y;
+        int kpos = vf_chance (r, 1, 2) ? 0 : (int)vf_range (r, 0, ex_L / 2);
+        for (int i = 0; i < st.n; i++) { if (i) kpos += vf_chance (r, 1, 3) ? 0 : (int)vf_range (r, 1, ex_L / 2); if (kpos > ex_L) kpos = ex_L; if (i == st.n - 1 && vf_chance (r, 1, 2)) kpos = ex_L; st.s[i].x = (pixman_fixed_t)((int64_t)kpos * 65536 / ex_L); }
+        vf_count ("linear_exact_parameter_cases", 1);
+    }
     /* circles whose centre is more than 16384 pixels away from the pixels that are drawn, with radii to match (the drawn pixels lie between the circles) */
     int far_centre = 0;
     if (g.kind == 1 && !degenerate && !touching && vf_chance (r, 1, 8)) {
@@ -161,6 +171,7 @@ static void grad_case (long idx, vf_rng *r)
         static const double ws[] = { 0.5, 2.0, 0.25, 1.5, 3.0 }; tr.matrix[2][2] = (pixman_fixed_t)(VF_PICK (r, ws) * 65536); }
     if (degenerate && vf_chance (r, 1, 3)) { for (int i = 0; i < 3; i++) for (int j = 0; j < 3; j++) tr.matrix[i][j] = vf_chance (r, 1, 3) ? 0 : (pixman_fixed_t)vf_u32 (r); tk = 4; }   /* singular / wild */
     if (tk) pixman_image_set_transform (src, &tr);
+    if (exact && tk) { tk = 0; pixman_image_set_transform (src, NULL); }
     if (far_centre && tk >= 2) { tk = vf_chance (r, 1, 2); pixman_transform_init_identity (&tr); if (tk) { tr.matrix[0][2] = frand (r, -5, 5); tr.matrix[1][2] = frand (r, -5, 5); pixman_image_set_transform (src, &tr); } else pixman_image_set_transform (src, NULL); }
     if (far_centre) vf_count ("radial_far_centres", 1);
     int wide = vf_chance (r, 1, 4);
@@ -214,7 +225,8 @@ static void grad_case (long idx, vf_rng *r)
             if (ill || (some && none)) { nskip++; continue; }
             npx++;
             double lo[4], hi[4];
-            if (!some) { for (int c = 0; c < 4; c++) lo[c] = hi[c] = 0; }
+            if (exact) { int64_t te = (int64_t)(x + sx - ex_a) * 65536 / ex_L; double o[4]; colour_at (&st, te, o); for (int c = 0; c < 4; c++) lo[c] = hi[c] = o[c]; tlo = thi = (long double)te; some = 1; vf_count ("pixels_with_exact_parameter", 1); }
+            else if (!some) { for (int c = 0; c < 4; c++) lo[c] = hi[c] = 0; }
             else {
                 int constant_zone = (st.repeat == PIXMAN_REPEAT_NONE || st.repeat == PIXMAN_REPEAT_PAD) &&
                                     ((thi + 4 < st.s[0].x && thi + 4 < 0) || (tlo - 4 >= st.s[st.n - 1].x && tlo - 4 > 65536)) && fabsl (tlo) < 9e17L && fabsl (thi) < 9e17L;
